@@ -176,6 +176,7 @@ def check(prog, run):
     shapes.require(ld is not None, "C06.R3: NoFragmentCyclesChecker.leave_document not found")
     srch = [f for f in ld.nested.values()]
     rec = any(isinstance(n, ast.Call) and isinstance(n.func, ast.Name) and n.func.id == f.name for f in srch for n in own_nodes(f.node))
+    closure_breaks(prog, run, r, [ff] + srch)
     r.instance("NoFragmentCyclesChecker search is recursive: %s" % rec)
     if not rec:
         run.report(r, "%s:NoFragmentCyclesChecker.leave_document:not-transitive" % RULES, ld.where(), "cycle search does not follow spreads transitively")
@@ -290,3 +291,29 @@ def check(prog, run):
                                "%s.%s is not traversed by the visitor, so KnownTypeNamesChecker never sees it, and no rule handler of "
                                "%s reports an unknown type there: a document referring to an undefined type passes (or crashes) "
                                "validation" % (cname, slot, cname))
+
+
+def closure_breaks(prog, run, r, fns):
+    """In a reachability closure (worklist `while` / recursive search over successors) an element that is already
+    visited, or has nothing to expand, must be skipped (`continue`), never end the traversal (`break` / `return`)."""
+    for f in fns:
+        for n in own_nodes(f.node):
+            if not isinstance(n, (ast.While, ast.For)):
+                continue
+            for st in ast.walk(n):
+                if isinstance(st, ast.If) and len(st.body) >= 1 and isinstance(st.body[-1], (ast.Break, ast.Return)) and not st.orelse:
+                    # the innermost loop containing this `if` must be n
+                    cur, inner = st, None
+                    while getattr(cur, "_parent", None) is not None:
+                        cur = cur._parent
+                        if isinstance(cur, (ast.While, ast.For)):
+                            inner = cur
+                            break
+                    if inner is not n:
+                        continue
+                    t = " ".join(ast.unparse(st.test).split())
+                    if isinstance(st.test, ast.Compare) and isinstance(st.test.ops[0], (ast.In, ast.NotIn)):
+                        r.instance("%s: `if %s: %s` in closure loop" % (f.qualname, t, type(st.body[-1]).__name__.lower()))
+                        run.report(r, "%s:%s:closure-stops-early(%s)" % (f.module.name, f.qualname, t), f.where(st),
+                                   "the reachability loop `%s` ends (`%s`) when `%s`: elements queued or listed after it are never "
+                                   "examined, so the result depends on the order of fragments/spreads" % (norm_stmt(n), type(st.body[-1]).__name__.lower(), t))
